@@ -199,6 +199,7 @@ class WSConnModel:
         obj = SObj(wsproto.connection.Connection, {}, tag="wsconn")
         obj.fields["state"] = CS.OPEN
         obj.fields["cur_type"] = 0
+        interp.traces.setdefault("ws_conn_new", []).append(tuple(args))  # (connection type, extensions)
         interp.register_shared(obj)
         return obj
 
@@ -250,6 +251,13 @@ def _ws_builtins(interp):
         key = a[0].value if isinstance(a[0], SymOpt) else a[0]  # (the token of the key, when there is one)
         return SymStr(s_accept_token(str_to_z3(key)), "bytes")
 
+    def _new_deflate(a, k, fr):
+        # a permessage-deflate extension object carries per-connection state (negotiated flag,
+        # compressor, decompressor): contracts can ask where the one given to a connection came from
+        o = SObj(wsproto.extensions.PerMessageDeflate, {})
+        interp.traces.setdefault("ws_ext_new", []).append(o)
+        return o
+
     def server_extensions_handshake(a, k, fr):
         from .sym import SymOpt
 
@@ -259,5 +267,5 @@ def _ws_builtins(interp):
         wsproto.utilities.split_comma_header: split_comma_header,
         wsproto.utilities.generate_accept_token: generate_accept_token,
         wsproto.handshake.server_extensions_handshake: server_extensions_handshake,
-        wsproto.extensions.PerMessageDeflate: lambda a, k, fr: SObj(wsproto.extensions.PerMessageDeflate, {}),
+        wsproto.extensions.PerMessageDeflate: _new_deflate,
     }
